@@ -21,7 +21,7 @@ PROP = {
                   "tags / non-records are rejected. Each tyWF condition the derive macro does not enforce is shown "
                   "necessary by a witness the macro accepts (model and real code). The model (layout + recognisers on "
                   "bridge events, incl. tuple structs, newtypes, enums) is tied to the real derive output by "
-                  "differential execution over a battery of 50 derived types on written and mutated values; the two "
+                  "differential execution over a battery of 63 derived types on written and mutated values; the two "
                   "Recon reading paths and the MessagePack round trip are decided on the implementation by a monitor.",
     "level_note": "The proc-macro expansion is exercised (battery), not modelled; tuple structs, newtypes and enums are "
                   "in the executable model and the correspondence but outside the theorem's tyWF fragment; the Recon "
